@@ -48,6 +48,33 @@ def padded_parent(parents, counts):
     return any(counts[b] < mx[lev[b]] for b in has_kids)
 
 
+def graph_residual(st, vals, out):
+    """largest relative residual of the graph equations  z_c (1 + dt vt_c) + dt sum_{e into c, type<=2} g_e (z_c - z_src) = v_c + dt ct_c,
+    with the branch-point values determined by  sum_{e into j, type 3/4} g_e (z_src - y_j) = 0;  exact rational arithmetic"""
+    from fractions import Fraction as Fr
+    n = st["ncomp"]
+    z = [Fr(x) for x in out]
+    g = [Fr(x) for x in vals["g"]]
+    v, vt, ct, dt = [Fr(x) for x in vals["v"]], [Fr(x) for x in vals["vt"]], [Fr(x) for x in vals["ct"]], Fr(vals["dt"])
+    num, den = {}, {}
+    for (src, snk, t), ge in zip(st["edges"], g):
+        if t in (3, 4):
+            num[snk] = num.get(snk, 0) + ge * z[src]
+            den[snk] = den.get(snk, 0) + ge
+    y = {j: num[j] / den[j] for j in num}
+    val = lambda node: z[node] if node < n else y[node]
+    worst = Fr(0)
+    for c in range(n):
+        lhs = z[c] * (1 + dt * vt[c])
+        scale = abs(z[c]) * (1 + dt * vt[c]) + abs(v[c] + dt * ct[c])
+        for (src, snk, t), ge in zip(st["edges"], g):
+            if t <= 2 and snk == c:
+                lhs += dt * ge * (z[c] - val(src))
+                scale += dt * ge * (abs(z[c]) + abs(val(src)))
+        worst = max(worst, abs(lhs - (v[c] + dt * ct[c])) / scale)
+    return float(worst)
+
+
 def wide_level_cases(viol):
     """levels that are many compartments wide.  The theorems are about exact arithmetic; in floating point the
     recursive-doubling kernel of the `jaxley.stone` backend (tridiax.stone) under/overflows on a (padded) branch of
@@ -332,6 +359,12 @@ def run(ctx):
             evals += 2
             distinct.add(("arr", str(case)))
             for sv, o in reals.items():
+                # the conclusion of C01_every_cell_step_solves_the_cable_graph_equations, checked directly on the code's
+                # output: backward-Euler equations of the conductance graph given by comp_edges (exact rationals)
+                res = graph_residual(st, vals, o)
+                if res > 1e-9:
+                    viol.append(dict(case, kind="the output of step_voltage_implicit_with_jaxley_spsolve does not satisfy the backward-Euler equations of the conductance graph (comp_edges)",
+                                     solver=sv, values=vals, relative_residual=res, got=o))
                 if len(o) != len(model) or max(abs(a - b) for a, b in zip(o, model)) > 1e-9 * 100:
                     viol.append(dict(case, kind="step_voltage_implicit_with_jaxley_spsolve differs from the array-level model (Model/HinesArr.v)",
                                      solver=sv, values=vals, got=o, model=model))
